@@ -126,3 +126,487 @@ def roundtrip_native(vc):
             vc.inputs["error"] = f"plot {type(e).__name__}: {e}"[:200]
             pl = False
         vc.ensures("plots_available_after_reload", pl)
+
+
+# ================================================================================================
+# proof layer: save() -> load() restores every attribute that a further step or a read-out reads
+# ================================================================================================
+import ast
+import z3
+from pyvc import sym as S
+from pyvc.sym import Sym, Unsupported, ctx
+from pyvc.tensor import Tensor, SymList
+from pyvc.interp import SymObj, BoundMethod, FuncVal
+from pyvc.objlist import PosteriorGhost
+
+GIBBS = "inference.mcmc.gibbs"
+
+# attributes that are, by design, not written to the file: supplied again by the caller of load(), or re-created
+NOT_PERSISTED = {"posterior", "rng", "ProgressPrinter", "grad", "print_status"}
+
+
+def _fresh_value(v, name):
+    """an arbitrary value of the same kind as v (the state after an arbitrary history has the same kinds of fields)"""
+    c = ctx()
+    if isinstance(v, bool) or v is None or isinstance(v, str):
+        return v
+    if isinstance(v, int):
+        return Sym(c.fresh(name, "Int"))
+    if isinstance(v, float):
+        return Sym(c.fresh(name, "Real"))
+    if isinstance(v, Sym):
+        return Sym(c.fresh(name, "Bool" if v.is_bool else "Int" if v.is_int else "Real"))
+    if isinstance(v, (list, SymList)):
+        n = c.fresh(name + "_len", "Int")
+        c.defs.append(n >= 1)
+        c.mark_nonneg(n)
+        ints = isinstance(v, list) and v and all(isinstance(e, int) or (isinstance(e, Sym) and e.is_int) for e in v)
+        f = z3.Function(str(c.fresh(name, "Int")) + "_l", z3.IntSort(), z3.IntSort() if ints else z3.RealSort())
+        return SymList(Sym(n), lambda i: Sym(f(S.z(i))))
+    if isinstance(v, Tensor):
+        f = z3.Function(str(c.fresh(name, "Int")) + "_t", *([z3.IntSort()] * v.ndim), z3.RealSort())
+        return Tensor(v.shape, lambda *idx: Sym(f(*[S.z(i) for i in idx])))
+    return v
+
+
+STRUCTURAL = {"n_parameters", "n_walkers", "n_variables"}      # sizes of the object lists / arrays: kept as built
+
+
+def assigned_outside_init(cls):
+    """attributes of `self` stored by any method other than __init__ (of the class or a base): the state that a history
+    of calls can change; everything else keeps the value the constructor gave it"""
+    out = set()
+    for c in cls.mro():
+        for name, fv in c.attrs.items():
+            if not isinstance(fv, FuncVal) or name == "__init__":
+                continue
+            node = fv.node
+            selfname = node.args.args[0].arg if getattr(node, "args", None) and node.args.args else "self"
+            for n in ast.walk(node):
+                if isinstance(n, ast.Attribute) and isinstance(n.value, ast.Name) and n.value.id == selfname \
+                        and isinstance(n.ctx, (ast.Store, ast.Del)):
+                    out.add(n.attr)
+                # in-place growth of a list / array attribute: self.x.append(...), self.x[...] = ..., self.x += ...
+                if isinstance(n, ast.Call) and isinstance(n.func, ast.Attribute) and isinstance(n.func.value, ast.Attribute) \
+                        and isinstance(n.func.value.value, ast.Name) and n.func.value.value.id == selfname:
+                    out.add(n.func.value.attr)
+                if isinstance(n, ast.Subscript) and isinstance(n.ctx, ast.Store) and isinstance(n.value, ast.Attribute) \
+                        and isinstance(n.value.value, ast.Name) and n.value.value.id == selfname:
+                    out.add(n.value.attr)
+                if isinstance(n, ast.AugAssign) and isinstance(n.target, ast.Attribute) and isinstance(n.target.value, ast.Name) \
+                        and n.target.value.id == selfname:
+                    out.add(n.target.attr)
+    return out
+
+
+def generalise(obj, prefix="f"):
+    mutable = assigned_outside_init(obj.cls) | {"inv_temp", "display_progress"}      # (constructor arguments too)
+    for k, v in list(obj.fields.items()):
+        if k not in mutable and not (isinstance(v, list) and v and all(isinstance(e, SymObj) for e in v)):
+            continue
+        if k in NOT_PERSISTED or k in STRUCTURAL or isinstance(v, (BoundMethod, FuncVal)) or callable(v):
+            continue
+        if isinstance(v, list) and v and all(isinstance(e, SymObj) for e in v):
+            for i, e in enumerate(v):
+                generalise(e, f"{prefix}_{k}{i}")
+            continue
+        if isinstance(v, SymObj):
+            continue
+        obj.fields[k] = _fresh_value(v, f"{prefix}_{k}")
+
+
+class FileStore:
+    """numpy.savez(name, **items) / numpy.load(name): what is stored is what is read back, each value as an array
+    (lists become arrays, scalars 0-d arrays) -- the assumed contract of the .npz round trip"""
+
+    def __init__(self):
+        self.files = {}
+
+    def savez(self, filename, **items):
+        self.files[filename] = dict(items)
+
+    def load(self, filename):
+        if filename not in self.files:
+            raise Unsupported("load of a file that was not saved in this contract")
+        out = {}
+        from pyvc import npmodel as N_
+        for k, v in self.files[filename].items():
+            if isinstance(v, (SymList, list)):
+                v = N_.to_tensor(v, fresh=True) if (isinstance(v, SymList) or v) else Tensor((0,), lambda i: 0.0)
+            elif isinstance(v, (int, float, Sym)) and not isinstance(v, bool) and not (isinstance(v, Sym) and v.is_bool):
+                v = Tensor((), lambda v=v: v)          # scalars come back as 0-d arrays
+            out[k] = v
+        return out
+
+
+def same_value(vc, name, a, b):
+    """the reloaded attribute equals the saved one (element-wise for sequences)"""
+    if isinstance(a, (BoundMethod, FuncVal)) or isinstance(b, (BoundMethod, FuncVal)):
+        fa = a.func.qualname if isinstance(a, BoundMethod) else getattr(a, "qualname", None)
+        fb = b.func.qualname if isinstance(b, BoundMethod) else getattr(b, "qualname", None)
+        vc.ensures(name, fa == fb)
+        return
+    if isinstance(a, Tensor) and a.ndim == 0:
+        a = a.at()
+    if isinstance(b, Tensor) and b.ndim == 0:
+        b = b.at()
+    seq = (list, SymList, Tensor)
+    if isinstance(a, seq) or isinstance(b, seq):
+        if not (isinstance(a, seq) and isinstance(b, seq)):
+            vc.ensures(name, False)
+            return
+        la = a.length() if isinstance(a, SymList) else (a.shape[0] if isinstance(a, Tensor) else len(a))
+        lb = b.length() if isinstance(b, SymList) else (b.shape[0] if isinstance(b, Tensor) else len(b))
+        at = lambda x, i: x.at(i) if isinstance(x, (SymList, Tensor)) else vc.I.iter_at(x, i)
+        if isinstance(a, Tensor) and isinstance(b, Tensor) and a.ndim == 2 and b.ndim == 2:
+            vc.ensures(name + ".shape", S.And(S.cmp("==", a.shape[0], b.shape[0]), S.cmp("==", a.shape[1], b.shape[1])))
+            vc.ensures_forall(name, (a.shape[0], a.shape[1]), lambda i, j: S.cmp("==", a.at(i, j), b.at(i, j)))
+            return
+        vc.ensures(name + ".length", S.cmp("==", la, lb))
+        from pyvc.sym import unwrap as _uw
+        if isinstance(_uw(la), int) and isinstance(_uw(lb), int):
+            if _uw(la) == _uw(lb):
+                for i in range(_uw(la)):
+                    vc.ensures(name, S.cmp("==", at(a, i), at(b, i)))
+            return
+        if (isinstance(a, list) and not a) or (isinstance(b, list) and not b):
+            return                        # one side is the empty list: equal lengths is all there is to say
+        vc.ensures_forall(name, la, lambda i: S.cmp("==", at(a, i), at(b, i)))
+        return
+    if a is None or b is None or isinstance(a, str) or isinstance(b, str):
+        vc.ensures(name, a == b if not (a is None or b is None) else a is b)
+        return
+    vc.ensures(name, S.cmp("==", a, b))
+
+
+
+
+def static_reads(vc, classes, entries):
+    """read set by a walk over the real AST: every `self.<attr>` loaded in the entry methods and in every method of the
+    listed classes reachable from them through `<anything>.<method>(...)` calls; returns {class name: {attr, ...}}.
+    (An over-approximation of what a further step / a read-out can read; attributes that are methods are dropped by
+    the caller.)"""
+    methods = {}
+    for cls in classes:
+        for c in cls.mro():
+            for name, fv in c.attrs.items():
+                if isinstance(fv, FuncVal) and (cls.name, name) not in methods:
+                    methods[(cls.name, name)] = fv
+    by_name = {}
+    for (cn, mn), fv in methods.items():
+        by_name.setdefault(mn, []).append((cn, fv))
+    reads = {cls.name: set() for cls in classes}
+    todo = [(classes[0].name, e) for e in entries]
+    seen = set()
+    while todo:
+        cn, mn = todo.pop()
+        if (cn, mn) in seen or (cn, mn) not in methods:
+            continue
+        seen.add((cn, mn))
+        node = methods[(cn, mn)].node
+        selfname = node.args.args[0].arg if getattr(node, "args", None) and node.args.args else "self"
+        for n in ast.walk(node):
+            if isinstance(n, ast.Attribute) and isinstance(n.value, ast.Name) and n.value.id == selfname:
+                if isinstance(n.ctx, ast.Load):
+                    reads[cn].add(n.attr)
+                    if (cn, n.attr) in methods:
+                        todo.append((cn, n.attr))
+            if isinstance(n, ast.Call) and isinstance(n.func, ast.Attribute):
+                for (c2, fv) in by_name.get(n.func.attr, []):
+                    todo.append((c2, n.func.attr))
+            if isinstance(n, ast.Attribute) and not (isinstance(n.value, ast.Name) and n.value.id == selfname):
+                # attribute of another object (a Parameter in a loop, self.bounds.lower ...): attribute names that are
+                # instance data of a listed class are counted for that class
+                for cls in classes:
+                    if cls.name != cn and isinstance(n.ctx, ast.Load):
+                        reads[cls.name].add(n.attr)
+    return reads
+
+
+def check_roundtrip(vc, original, loaded, reads, what):
+    """every instance attribute in the read set is present on the reloaded object and equal"""
+    names = sorted(a for a in reads if a in original.fields and a not in NOT_PERSISTED)
+    vc.note(f"{what}: compared {names}")
+    for a in names:
+        if a not in loaded.fields:
+            vc.ensures(f"{what}.{a}.restored", False)
+            continue
+        va, vb = original.fields[a], loaded.fields[a]
+        if isinstance(va, list) and va and all(isinstance(e, SymObj) for e in va):
+            continue          # lists of objects are compared object by object by the caller
+        if isinstance(va, SymObj):
+            continue
+        try:
+            same_value(vc, f"{what}.{a}.restored", va, vb)
+        except Unsupported as e:
+            raise Unsupported(f"{what}.{a}: {e} ({type(va).__name__} vs {type(vb).__name__})")
+    return names
+
+
+@contract("C09", "gibbs_roundtrip", native=False, replay_with="roundtrip_native")
+def gibbs_roundtrip(vc):
+    """GibbsChain / PcaChain share Parameter and MetropolisChain.save/load: after save -> load every attribute a
+    further step or a read-out reads is restored (d in {1, 2}; any history: field values are arbitrary)"""
+    store = FileStore()
+    vc.I.models["numpy.savez"] = store.savez
+    vc.I.models["numpy.load"] = store.load
+    d = vc.choice("d", [1, 2])
+    post = PosteriorGhost()
+    start = vc.vector("start", d)
+    widths = vc.vector("widths", d, pos=True)
+    T = vc.real("temperature", pos=True)
+    chain = vc.new(GIBBS, "GibbsChain", posterior=post, start=start, widths=widths, temperature=T, display_progress=False)
+    limits = vc.choice("limits_on_parameter_0", ["none", "boundaries", "non_negative", "both"])
+    if limits in ("boundaries", "both"):
+        lo = vc.real("lower")
+        vc.call(chain, "set_boundaries", 0, (lo, S.add(lo, vc.real("width", pos=True))))
+    if limits in ("non_negative", "both"):
+        vc.call(chain, "set_non_negative", 0, True)
+    generalise(chain)
+    Chain, Param = vc.cls(GIBBS, "GibbsChain"), vc.cls(GIBBS, "Parameter")
+    reads = static_reads(vc, [Chain, Param], ["take_step", "get_parameter", "get_probabilities", "get_last", "get_sample",
+                                             "set_boundaries", "set_non_negative", "save"])
+    vc.call(chain, "save", "file.npz")
+    loaded = vc.call(Chain, "load", "file.npz", posterior=post)
+    got = check_roundtrip(vc, chain, loaded, reads["GibbsChain"], "chain")
+    vc.ensures("chain_attributes_compared", len(got) >= 4)
+    P0, P1 = vc.attr(chain, "params"), vc.attr(loaded, "params")
+    vc.ensures("same_number_of_parameters", len(P1) == len(P0))
+    for i in range(min(len(P0), len(P1))):
+        gp = check_roundtrip(vc, P0[i], P1[i], reads["Parameter"], f"parameter")
+        vc.ensures("parameter_attributes_compared", len(gp) >= 15)
+    vc.ensures("posterior_is_the_one_supplied", vc.attr(loaded, "posterior") is post)
+
+
+PCA = "inference.mcmc.pca"
+
+
+def _vec(name, d):
+    c = ctx()
+    f = z3.Function(str(c.fresh(name, "Int")) + "_v", z3.IntSort(), z3.RealSort())
+    return Tensor((d,), lambda i: Sym(f(S.z(i))))
+
+
+def _mat(name, r, cc):
+    c = ctx()
+    f = z3.Function(str(c.fresh(name, "Int")) + "_m", z3.IntSort(), z3.IntSort(), z3.RealSort())
+    return Tensor((r, cc), lambda i, j: Sym(f(S.z(i), S.z(j))))
+
+
+def _list_of_vectors(name, n, d):
+    c = ctx()
+    f = z3.Function(str(c.fresh(name, "Int")) + "_lv", z3.IntSort(), z3.IntSort(), z3.RealSort())
+    return SymList(n, lambda i: Tensor((d,), lambda j, i=i: Sym(f(S.z(i), S.z(j)))))
+
+
+def same_vector_list(vc, name, a, b, d):
+    la = a.length() if isinstance(a, SymList) else len(a)
+    lb = b.length() if isinstance(b, SymList) else len(b)
+    vc.ensures(name + ".length", S.cmp("==", la, lb))
+    if (isinstance(a, list) and not a) or (isinstance(b, list) and not b):
+        return
+    at = lambda x, i: x.at(i) if isinstance(x, SymList) else vc.I.iter_at(x, i)
+    vc.ensures_forall(name, (la, d), lambda i, j: S.cmp("==", at(a, i).at(j), at(b, i).at(j)))
+
+
+@contract("C09", "pca_roundtrip", native=False, replay_with="roundtrip_native")
+def pca_roundtrip(vc):
+    """PcaChain: as gibbs_roundtrip, plus the direction set, its update schedule and history, the running covariance (when
+    it exists) and the bounds"""
+    store = FileStore()
+    vc.I.models["numpy.savez"] = store.savez
+    vc.I.models["numpy.load"] = store.load
+    d = vc.choice("d", [1, 2])
+    post = PosteriorGhost()
+    start = vc.vector("start", d)
+    widths = vc.vector("widths", d, pos=True)
+    bounded_ = vc.choice("bounds", [False, True])
+    has_covar = vc.choice("covariance_estimated", [False, True])
+    kw = {}
+    if bounded_:
+        lo = vc.vector("lower", d)
+        up = lo + vc.vector("gap", d, pos=True)
+        vc.assume_forall(d, lambda i: S.And(S.cmp("<=", lo.at(i), start.at(i)), S.cmp("<=", start.at(i), up.at(i))))
+        kw["bounds"] = (lo, up)
+    with vc.raising_allowed():
+        chain = vc.new(PCA, "PcaChain", posterior=post, start=start, widths=widths, display_progress=False, **kw)
+    generalise(chain)
+    H = vc.int("n_direction_updates", lo=0)
+    chain.fields["directions"] = [_vec(f"dir{i}", d) for i in range(d)]
+    chain.fields["angles_history"] = _list_of_vectors("angles", H, d)
+    c = ctx()
+    uh = z3.Function("update_hist", z3.IntSort(), z3.IntSort())
+    chain.fields["update_history"] = SymList(H, lambda i: Sym(uh(S.z(i))))
+    if has_covar:
+        chain.fields["covar"] = _mat("covar", d, d)
+    Chain, Param = vc.cls(PCA, "PcaChain"), vc.cls(GIBBS, "Parameter")
+    reads = static_reads(vc, [Chain, Param], ["take_step", "update_directions", "get_parameter", "get_probabilities", "get_last",
+                                             "get_sample", "save"])
+    vc.call(chain, "save", "file.npz")
+    loaded = vc.call(Chain, "load", "file.npz", posterior=post)
+    skip = {"directions", "angles_history", "covar", "bounds", "process_proposal"}
+    got = check_roundtrip(vc, chain, loaded, reads["PcaChain"] - skip, "chain")
+    vc.ensures("chain_attributes_compared", len(got) >= 8)
+    same_vector_list(vc, "chain.directions.restored", chain.fields["directions"], loaded.fields["directions"], d)
+    same_vector_list(vc, "chain.angles_history.restored", chain.fields["angles_history"], loaded.fields["angles_history"], d)
+    if has_covar:
+        vc.ensures("chain.covar.restored.present", "covar" in loaded.fields)
+        if "covar" in loaded.fields:
+            same_value(vc, "chain.covar.restored", chain.fields["covar"], loaded.fields["covar"])
+    else:
+        vc.ensures("chain.covar.absent_stays_absent", "covar" not in loaded.fields)
+    b0, b1 = chain.fields.get("bounds"), loaded.fields.get("bounds")
+    vc.ensures("chain.bounds.restored.presence", (b0 is None) == (b1 is None))
+    if b0 is not None and b1 is not None:
+        same_value(vc, "chain.bounds.lower.restored", vc.attr(b0, "lower"), vc.attr(b1, "lower"))
+        same_value(vc, "chain.bounds.upper.restored", vc.attr(b0, "upper"), vc.attr(b1, "upper"))
+    same_value(vc, "chain.process_proposal.restored", chain.fields["process_proposal"], loaded.fields["process_proposal"])
+    P0, P1 = vc.attr(chain, "params"), vc.attr(loaded, "params")
+    vc.ensures("same_number_of_parameters", len(P1) == len(P0))
+    for i in range(min(len(P0), len(P1))):
+        check_roundtrip(vc, P0[i], P1[i], reads["Parameter"], "parameter")
+
+
+HMC = "inference.mcmc.hmc"
+EPS = "inference.mcmc.hmc.epsilon"
+
+
+@contract("C09", "hmc_roundtrip", native=False, replay_with="roundtrip_native")
+def hmc_roundtrip(vc):
+    """HamiltonianChain: samples, log-probabilities, step counts, temperature, bounds, the mass (scalar or one value per
+    parameter) and every field of the step-size selector survive save -> load"""
+    store = FileStore()
+    vc.I.models["numpy.savez"] = store.savez
+    vc.I.models["numpy.load"] = store.load
+    d = vc.choice("d", [1, 2])
+    post = PosteriorGhost()
+    start = vc.vector("start", d)
+    bounded_ = vc.choice("bounds", [False, True])
+    mass_kind = vc.choice("mass", ["default", "vector"])
+    kw = {}
+    if bounded_:
+        lo = vc.vector("lower", d)
+        up = lo + vc.vector("gap", d, pos=True)
+        vc.assume_forall(d, lambda i: S.And(S.cmp("<=", lo.at(i), start.at(i)), S.cmp("<=", start.at(i), up.at(i))))
+        kw["bounds"] = (lo, up)
+    if mass_kind == "vector":
+        kw["inverse_mass"] = vc.vector("inverse_mass", d, pos=True)
+    T = vc.real("temperature", pos=True)
+    grad = vc.ghost("grad", lambda x: x)
+    with vc.raising_allowed():
+        chain = vc.new(HMC, "HamiltonianChain", posterior=post, start=start, grad=grad, epsilon=vc.real("epsilon", pos=True),
+                       temperature=T, display_progress=False, **kw)
+    N = vc.int("chain_len", lo=1)
+    keep = {k: chain.fields[k] for k in ("mass", "ES", "bounds", "run_leapfrog", "grad", "inv_temp") if k in chain.fields}
+    generalise(chain)
+    chain.fields.update(keep)
+    chain.fields["theta"] = _list_of_vectors("theta", N, d)
+    generalise(chain.fields["ES"], "es")
+    Chain = vc.cls(HMC, "HamiltonianChain")
+    ES = vc.cls(EPS, "EpsilonSelector")
+    reads = static_reads(vc, [Chain, ES], ["take_step", "standard_leapfrog", "bounded_leapfrog", "get_parameter",
+                                          "get_probabilities", "get_sample", "get_last", "save"])
+    vc.call(chain, "save", "file.npz")
+    with vc.raising_allowed():
+        loaded = vc.call(Chain, "load", "file.npz", posterior=post, grad=grad)
+    skip = {"theta", "mass", "ES", "bounds", "run_leapfrog", "grad", "kinetic_energy"}
+    got = check_roundtrip(vc, chain, loaded, reads["HamiltonianChain"] - skip, "chain")
+    vc.ensures("chain_attributes_compared", len(got) >= 6)
+    same_vector_list(vc, "chain.theta.restored", chain.fields["theta"], loaded.fields["theta"], d)
+    m0, m1 = chain.fields["mass"], loaded.fields.get("mass")
+    vc.ensures("chain.mass.restored", m1 is not None)
+    vc.ensures("chain.mass.same_kind", m1 is not None and m0.cls.name == m1.cls.name)
+    if m1 is not None and m0.cls.name == m1.cls.name:
+        for a in sorted(k for k in m0.fields if not callable(m0.fields[k])):
+            if a in m1.fields:
+                same_value(vc, f"chain.mass.{a}.restored", m0.fields[a], m1.fields[a])
+            else:
+                vc.ensures(f"chain.mass.{a}.restored", False)
+    e0, e1 = chain.fields["ES"], loaded.fields.get("ES")
+    vc.ensures("chain.step_size_selector.restored", e1 is not None)
+    if e1 is None:
+        return
+    ge = check_roundtrip(vc, e0, e1, set(e0.fields), "step_size_selector")
+    vc.ensures("selector_attributes_compared", len(ge) >= 8)
+    b0, b1 = chain.fields.get("bounds"), loaded.fields.get("bounds")
+    vc.ensures("chain.bounds.restored.presence", (b0 is None) == (b1 is None))
+    if b0 is not None and b1 is not None:
+        same_value(vc, "chain.bounds.lower.restored", vc.attr(b0, "lower"), vc.attr(b1, "lower"))
+        same_value(vc, "chain.bounds.upper.restored", vc.attr(b0, "upper"), vc.attr(b1, "upper"))
+    same_value(vc, "chain.run_leapfrog.restored", chain.fields["run_leapfrog"], loaded.fields["run_leapfrog"])
+
+
+ENS = "inference.mcmc.ensemble"
+UTIL = "inference.mcmc.utilities"
+
+
+@contract("C09", "ensemble_roundtrip", native=False, replay_with="roundtrip_native")
+def ensemble_roundtrip(vc):
+    """EnsembleSampler (any number of walkers and iterations): walker positions and log-probabilities, counters,
+    proposal statistics, stretch parameter, bounds and the retained sample survive save -> load"""
+    store = FileStore()
+    vc.I.models["numpy.savez"] = store.savez
+    vc.I.models["numpy.load"] = store.load
+    d = vc.choice("d", [1, 2])
+    nw = vc.int("n_walkers", lo=2)
+    it = vc.int("n_iterations", lo=0)
+    bounded_ = vc.choice("bounds", [False, True])
+    has_sample = vc.choice("sample_retained", [False, True])
+    post = PosteriorGhost()
+    alpha = vc.real("alpha")
+    vc.assume(S.cmp(">", alpha, 1))
+    c = ctx()
+    tp = z3.Function("tp", z3.IntSort(), z3.IntSort(), z3.IntSort())
+    fu = z3.Function("fu", z3.IntSort(), z3.IntSort())
+    fields = dict(
+        walker_positions=_mat("walker_positions", nw, d), walker_probs=_vec("walker_probs", nw), n_parameters=d, n_walkers=nw,
+        n_iterations=it, chain_length=vc.int("chain_length", lo=0), alpha=alpha, max_attempts=vc.int("max_attempts", lo=1),
+        display_progress=False, posterior=post,
+        total_proposals=SymList(nw, lambda w: SymList(it, lambda t, w=w: Sym(tp(S.z(w), S.z(t))))),
+        failed_updates=SymList(it, lambda t: Sym(fu(S.z(t)))),
+        sample=None, sample_probs=None, bounds=None)
+    if has_sample:
+        K = vc.int("n_stored", lo=1)
+        fields["sample"] = _mat("sample", K, d)
+        fields["sample_probs"] = _vec("sample_probs", K)
+    if bounded_:
+        lo = vc.vector("lower", d)
+        up = lo + vc.vector("gap", d, pos=True)
+        fields["bounds"] = vc.new(UTIL, "Bounds", lower=lo, upper=up)
+    sampler = vc.obj(ENS, "EnsembleSampler", **fields)
+    Cls = vc.cls(ENS, "EnsembleSampler")
+    reads = static_reads(vc, [Cls], ["advance", "get_sample", "get_probabilities", "get_parameter", "save",
+                                     "_EnsembleSampler__advance_all", "_EnsembleSampler__advance_walker", "_EnsembleSampler__proposal"])
+    vc.call(sampler, "save", "file.npz")
+    with vc.raising_allowed():
+        loaded = vc.call(Cls, "load", "file.npz", posterior=post)
+    skip = {"total_proposals", "bounds", "process_proposal", "sample", "sample_probs", "posterior"}
+    got = check_roundtrip(vc, sampler, loaded, (reads["EnsembleSampler"] | set(fields)) - skip, "sampler")
+    vc.ensures("sampler_attributes_compared", len(got) >= 9)
+    t0, t1 = sampler.fields["total_proposals"], loaded.fields.get("total_proposals")
+    vc.ensures("sampler.total_proposals.restored.present", t1 is not None)
+    if t1 is not None and it is not None:
+        l1 = t1.length() if isinstance(t1, SymList) else len(t1)
+        vc.ensures("sampler.total_proposals.restored.walkers", S.cmp("==", l1, nw))
+        at = lambda x, i: x.at(i) if isinstance(x, SymList) else vc.I.iter_at(x, i)
+        def row_eq(w, t):
+            r1 = at(t1, w)
+            return S.cmp("==", r1.at(t) if isinstance(r1, (SymList, Tensor)) else vc.I.iter_at(r1, t), t0.at(w).at(t))
+        vc.ensures_forall("sampler.total_proposals.restored", (nw, it), row_eq)
+    for a in ("sample", "sample_probs"):
+        v0, v1 = sampler.fields[a], loaded.fields.get(a)
+        if v0 is None:
+            vc.ensures(f"sampler.{a}.absent_stays_absent", v1 is None)
+        else:
+            vc.ensures(f"sampler.{a}.restored.present", v1 is not None)
+            if v1 is not None:
+                same_value(vc, f"sampler.{a}.restored", v0, v1)
+    b0, b1 = sampler.fields.get("bounds"), loaded.fields.get("bounds")
+    vc.ensures("sampler.bounds.restored.presence", (b0 is None) == (b1 is None))
+    if b0 is not None and b1 is not None:
+        same_value(vc, "sampler.bounds.lower.restored", vc.attr(b0, "lower"), vc.attr(b1, "lower"))
+        same_value(vc, "sampler.bounds.upper.restored", vc.attr(b0, "upper"), vc.attr(b1, "upper"))
+    pp = loaded.fields.get("process_proposal")
+    want = "Bounds.reflect" if bounded_ else "EnsembleSampler.pass_through"
+    qn = pp.func.qualname if isinstance(pp, BoundMethod) else getattr(pp, "qualname", None)      # (pass_through is static)
+    vc.ensures("sampler.process_proposal.restored", qn == want)
